@@ -435,7 +435,7 @@ func checkC08(c *checkCtx) {
 				// with simultaneous attempt results the hedge may accept another one than in the base schedule:
 				// a result an attempt had produced before the cancellation took effect is a completed result
 				c.cov("c08.result_is_earlier_hedge_attempt_result")
-			} else if scopePos < 0 && decidedBeforeCancel(v, c1seq) {
+			} else if scopePos < 0 && (decidedBeforeCancel(v, c1seq) || quiescentAtCancel(sc, v, c1seq, tc)) {
 				// every inner result the outermost policy used existed before the cancellation took effect
 				// and it scheduled nothing afterwards: the execution had completed, only the return was
 				// pending. (The uncancelled base run may differ when a result and a per-attempt timeout
@@ -668,6 +668,76 @@ func decidedBeforeCancel(v *ExecView, c1seq int) bool {
 			if e.L == LRetryScheduled || e.L == LHedge || e.L == LRetry {
 				return false
 			}
+		}
+	}
+	return true
+}
+
+// quiescentAtCancel: when the cancellation took effect nothing of the execution was in flight or
+// pending - every function invocation had returned, no retry was scheduled and not yet started, no
+// attempt was waiting at a bulkhead or rate limiter - and nothing was started afterwards. What
+// the caller receives is then made of results that all existed before the cancellation: the
+// policies were only handing them upwards.
+func quiescentAtCancel(sc *Scenario, v *ExecView, c1seq int, tc time.Duration) bool {
+	if v.OpEnd == nil {
+		return false
+	}
+	inflight := 0
+	pending := map[[2]int]bool{}
+	for _, e := range v.Events {
+		if e.Seq >= v.OpEnd.Seq {
+			break
+		}
+		after := e.Seq > c1seq
+		switch e.Kind {
+		case EvFnStart, EvFallbackFn:
+			if after {
+				return false
+			}
+			inflight++
+		case EvFnEnd, EvFallbackFnEnd:
+			if after {
+				return false
+			}
+			inflight--
+		case EvProbeEnter:
+			if after {
+				return false
+			}
+		case EvListener:
+			switch e.L {
+			case LRetryScheduled:
+				if after {
+					return false
+				}
+				pending[[2]int{e.Task, e.Pos}] = true
+			case LRetry:
+				if after {
+					return false
+				}
+				pending[[2]int{e.Task, e.Pos}] = false
+			case LHedge:
+				if after {
+					return false
+				}
+			}
+		}
+	}
+	if inflight != 0 {
+		return false
+	}
+	for _, p := range pending {
+		if p {
+			return false
+		}
+	}
+	for _, n := range v.Nodes {
+		p := v.policyAt(sc, n.Pos)
+		if p == nil || (p.Kind != KBulkhead && p.Kind != KLimiter) {
+			continue
+		}
+		if n.Enter.Seq < c1seq && len(n.Children) == 0 && (n.Exit == nil || n.Exit.Seq > c1seq) && n.Enter.T < tc {
+			return false // was waiting for a permit
 		}
 	}
 	return true
